@@ -14,7 +14,11 @@ PROPERTY_ID = 'C05'
 LEVEL = 'exploration'
 LINES_BASE, LINES_PER_BYTE = 20000, 20000
 NODES_BASE, NODES_PER_BYTE = 1000, 64
-RULE = ('repeat also holds 800 KB dictionaries with one repeated key (30 s against 0.2 s); deep_valid also holds long body '
+TEXT_BASE, TEXT_PER_BYTE = 1000, 2      # every decoded character comes from a byte of its own
+RULE = ('overlap: bodies of nested arrays (aas, aao, aaay, aag, a(s)) built of 64 / 1000 / 3000 eight-byte frames in which the '
+        'inner container under-claims its length while its element over-claims past the end of the message, the outer length '
+        'chosen so a decoder that trusts declared extents walks frame by frame (sibling values that would overlap). '
+        'repeat also holds 800 KB dictionaries with one repeated key (30 s against 0.2 s); deep_valid also holds long body '
         'signatures smuggled in through a SIGNATURE field of type STRING / OBJECT_PATH, and chains of 4..40 nested variants whose signatures carry two or three complete types (forbidden, '
         'tolerated by lenient decoders): work must not double per level. repeat: messages under 300 bytes carrying 24 / 40 / 80 repetitions of a legal name unit plus one illegal character in a '
         'header field or body value must be answered within 20 s (the only wall-clock oracle; this tree needs < 1 ms). '
@@ -28,7 +32,7 @@ RULE = ('repeat also holds 800 KB dictionaries with one repeated key (30 s again
         'bytes and inside body variants, well-formed messages whose UNIX_FDS header claims up to 2^32-1 descriptors, and '
         'raw random bytes, and well-formed bodies nested up to 28 levels deep (written by the library itself); entry points parseMessage, unmarshal and dataReceived of a '
         'pre-authenticated protocol. oracle: the call returns or raises an Exception within %d+%d*n traced interpreter '
-        'lines inside txdbus (sys.settrace step budget, no wall clock), a returned value has <= %d+%d*n nodes, and a '
+        'lines inside txdbus (sys.settrace step budget, no wall clock), a returned value has <= %d+%d*n nodes and holds at most 1000+2*n characters of text, and a '
         'fixed valid message still parses afterwards. Non-trivial = the input differs from the valid message it was '
         'derived from and is >= 16 bytes (reaches header decoding); distinct = distinct input case JSON.'
         % (LINES_BASE, LINES_PER_BYTE, NODES_BASE, NODES_PER_BYTE))
@@ -74,6 +78,13 @@ def _judge(name, status, value, meter, nbytes, nodes_fn, detail):
             nodes = 0
         if nodes > NODES_BASE + NODES_PER_BYTE * nbytes:
             return [Disc('%s.oversized-result' % name, '%d nodes from %d bytes: %s' % (nodes, nbytes, detail))]
+        try:
+            chars = R.count_chars(getattr(value, 'body', None) if name == 'parseMessage' else
+                                  (value[1] if name == 'unmarshal' else None))
+        except RecursionError:
+            chars = 0
+        if chars > TEXT_BASE + TEXT_PER_BYTE * nbytes:
+            return [Disc('%s.oversized-text' % name, '%d characters of text from %d bytes: %s' % (chars, nbytes, detail))]
     return []
 
 
@@ -359,6 +370,30 @@ def truncate_case(draw, tier):
     return {'kind': 'truncate', 'msg': msg, 'little': True}
 
 
+def enum_overlap(tier):
+    """Sibling values that would overlap: an outer array of F eight-byte frames [inner length][element length], the inner
+    container claiming fewer bytes than its element then takes (0, 1, 4, 5), the element claiming more than the message
+    holds, and the outer length set so that stepping by declared extents lands on its end.  A decoder has to notice that
+    an element ran past its container (or the data); one that trusts the declared extent decodes the rest of the message
+    again from every frame."""
+    for F in ((64, 1000) if tier == 'quick' else (64, 1000, 3000)):
+        for inner in ('as', 'ao', 'aay', 'ag', '(s)'):
+            for claim in (0, 1, 4, 5):
+                for over in (0x7f7f7f7f, 8 * F + 16, 0x2f2f2f2f):
+                    for outer in (8 * F - 3, 8 * F - 4 + claim, 8 * F):
+                        for little in (True, False):
+                            e = '<' if little else '>'
+                            if inner == 'ag':
+                                frame = struct.pack(e + 'IBBBB', claim, 0x7f, 0x79, 0x79, 0x79)
+                            elif inner == '(s)':
+                                frame = struct.pack(e + 'II', over, 0x79797979)
+                            else:
+                                frame = struct.pack(e + 'II', claim, over)
+                            body = struct.pack(e + 'I', outer) + (b'' if inner != '(s)' else b'\0' * 4) + frame * F
+                            yield {'kind': 'hostile_sig', 'where': 'header', 'mtype': 2, 'fields': {'5': 7},
+                                   'hsig': 'a' + inner, 'body': body.hex(), 'little': little}
+
+
 def enum_hostile(tier):
     """Every listed hostile signature x both placements x a few bodies, deterministically."""
     for hs in HOSTILE_SIGS:
@@ -607,6 +642,8 @@ SUBCHECKS = [
     Subcheck('hostile_list', run, classify_, enumerate=enum_hostile, shards={'quick': 4, 'thorough': 4},
              exhaustive_note='%d listed hostile signatures x 2 placements x 4 declared lengths x 2 byte orders'
                              % len(HOSTILE_SIGS)),
+    Subcheck('overlap', run, classify_, enumerate=enum_overlap, shards={'quick': 8, 'thorough': 16},
+             exhaustive_note='frames x inner element type x claimed inner length x element over-claim x outer length x byte order'),
     Subcheck('length_sweep', run, classify_, enumerate=enum_length_sweep, shards={'quick': 4, 'thorough': 4},
              exhaustive_note='every length field of 2 fixed messages x 2 byte orders x 34 values around 2^32 and 2^31'),
     Subcheck('deep_valid', run, classify_, enumerate=enum_deep, shards={'quick': 4, 'thorough': 4},
